@@ -1094,6 +1094,39 @@ def _fresh(e):
         return ast.parse(f"_[{t}]", mode="eval").body.slice
 
 
+def split_tuple_assigns(func):
+    """`a, b = (x, y)` -> `a = x; b = y` (when no target occurs in a value):
+    helpers that return a tuple are inlined in this form"""
+    from ..core import link
+
+    def process(stmts):
+        out = []
+        for st in stmts:
+            if isinstance(st, ast.Assign) and len(st.targets) == 1 \
+                    and isinstance(st.targets[0], ast.Tuple) and isinstance(
+                        st.value, ast.Tuple) and len(
+                        st.targets[0].elts) == len(st.value.elts) and all(
+                        isinstance(t, ast.Name) for t in st.targets[0].elts) \
+                    and not ({t.id for t in st.targets[0].elts}
+                             & names_in(st.value)):
+                for t, v in zip(st.targets[0].elts, st.value.elts):
+                    out.append(ast.copy_location(
+                        ast.Assign(targets=[t], value=v), st))
+                continue
+            for fld in ("body", "orelse", "finalbody"):
+                if isinstance(getattr(st, fld, None), list) and not \
+                        isinstance(st, (ast.FunctionDef, ast.ClassDef)):
+                    setattr(st, fld, process(getattr(st, fld)))
+            out.append(st)
+        return out
+    parent = getattr(func, "parent", None)
+    func.body = process(func.body)
+    ast.fix_missing_locations(func)
+    link(func)
+    func.parent = parent
+    return func
+
+
 class _Expand(ast.NodeTransformer):
     def __init__(self, func, depth):
         self.func, self.depth = func, depth
@@ -1152,8 +1185,8 @@ def _num(e, env):
 def r165(ctx, repo):
     # extracted private helpers are read as part of the method; the scale
     # helper is an anchor and stays a call
-    f = inline_helpers(repo, CORE, repo.func(
-        CORE, "RTDCBase.get_downsampled_scatter"), keep=("_apply_scale",))
+    f = split_tuple_assigns(inline_helpers(repo, CORE, repo.func(
+        CORE, "RTDCBase.get_downsampled_scatter"), keep=("_apply_scale",)))
     calls = find_calls(f, attr="downsample_grid")
     if len(calls) != 1:
         raise AnalysisError("get_downsampled_scatter: downsample_grid call "
@@ -1174,6 +1207,8 @@ def r165(ctx, repo):
     if not (isinstance(a0, ast.Name) and isinstance(a1, ast.Name)):
         raise AnalysisError("get_downsampled_scatter: data arguments")
 
+    scales = {}
+
     def origin(name):
         """(raw name, feature expr, selection expr)"""
         d = single_def(f, name)
@@ -1182,6 +1217,7 @@ def r165(ctx, repo):
         v = d.value
         raw = name
         if isinstance(v, ast.Call) and last_attr(v) == "_apply_scale":
+            scales[name] = kwarg(v, "scale", 1)
             a = kwarg(v, "a", 0)
             if not isinstance(a, ast.Name):
                 raise AnalysisError("get_downsampled_scatter: _apply_scale")
@@ -1190,6 +1226,14 @@ def r165(ctx, repo):
             if d is None:
                 raise AnalysisError(f"get_downsampled_scatter: `{raw}`")
             v = d.value
+        hops = 0
+        while isinstance(v, ast.Name) and hops < 6:
+            # `x = x__helper` left by an inlined helper
+            d = single_def(f, v.id)
+            if d is None:
+                break
+            v = d.value
+            hops += 1
         if isinstance(v, ast.Subscript) and isinstance(
                 v.value, ast.Subscript) and txt(v.value.value) == "self":
             return raw, expand(f, v.value.slice), expand(f, v.slice)
@@ -1204,6 +1248,20 @@ def r165(ctx, repo):
            "over the same selection, in (x, y) order" if ok else
            f"data handed to the sampler are self[{x[1]}][{x[2]}] and "
            f"self[{y[1]}][{y[2]}]", node=c, label="scatter data selection")
+    if scales:
+        if len(params) < 6 or set(scales) != {a0.id, a1.id}:
+            raise AnalysisError("get_downsampled_scatter: scale arguments")
+        got = (expand(f, scales[a0.id]) if scales[a0.id] is not None
+               else None, expand(f, scales[a1.id])
+               if scales[a1.id] is not None else None)
+        ok = got == (params[4], params[5])
+        ctx.ob("R16.5", ok,
+               f"each axis is transformed with its own scale "
+               f"({params[4]}, {params[5]}) before sampling" if ok else
+               f"the axes are transformed with {got}, expected "
+               f"({params[4]}, {params[5]}): validity (nan/inf after the "
+               "transform) and the sampling grid of one axis follow the "
+               "other axis' scale", node=c, label="scatter scale per axis")
     sel = x[2]
     ok = sel == "self.filter.all"
     ctx.ob("R16.5", ok, "the selection is the current event filter" if ok
@@ -1403,8 +1461,9 @@ def r166(ctx, repo):
     """the event limit is drawn from the current selection on every update:
     the limit block keeps nothing on the Filter instance that an update
     reads"""
-    upd = inline_helpers(repo, FILT, repo.func(FILT, "Filter.update"),
-                         keep=("_init_rtdc_ds", "_get_rw_array"))
+    upd = split_tuple_assigns(inline_helpers(
+        repo, FILT, repo.func(FILT, "Filter.update"),
+        keep=("_init_rtdc_ds", "_get_rw_array")))
     calls = find_calls(upd, attr="downsample_rand")
     if len(calls) != 1:
         raise AnalysisError("Filter.update: event-limit draw lost")
@@ -1439,6 +1498,34 @@ def r166(ctx, repo):
            "selection depends on earlier updates – a changed eligible set "
            "does not get its own draw", node=bad[0][1] if bad else block,
            label="limit block stateless")
+    # the limit is the last narrowing step: nothing removes events from
+    # the selection after the draw (the draw must see the final pool)
+    pool = kwarg(c, "a", 0)
+    pv = pool
+    if isinstance(pv, ast.Name):
+        d = single_def(upd, pv.id)
+        pv = d.value if d is not None else pv
+    if not (isinstance(pv, ast.Subscript) and isinstance(
+            pv.value, ast.Name)):
+        raise AnalysisError("Filter.update: pool of the event-limit draw "
+                            "not understood")
+    arr = pv.value.id
+    cfg = CFG(upd)
+    last = block.body[-1]
+    after = cfg.reach(cfg.ids_of(last),
+                      avoid_edge=lambda a_, lab, b_: lab == "x")
+    inblock = {id(n_) for n_ in walk(body)}
+    late = [s_ for s_ in stores_into(upd, arr)
+            if id(s_) not in inblock and any(
+                i in after for i in cfg.ids_of(s_))]
+    ctx.ob("R16.6", not late,
+           f"nothing narrows `{arr}` after the event limit was applied"
+           if not late else
+           f"`{short(late[0], 40)}` changes the selection after the event "
+           "limit was drawn: the draw is taken from a pool that still "
+           "contains events removed afterwards (fewer than `limit events` "
+           "pass although enough eligible events exist)",
+           node=late[0] if late else block, label="limit applied last")
     # the draw is not skipped depending on instance state
     cond = None
     n = c
@@ -1470,10 +1557,12 @@ def run(ctx):
              minimum=1)
     ctx.rule("R16.5", "get_downsampled_scatter: same selection for data "
              "and mask write-back, unscaled data under the sampler's mask; "
-             "every path samples; the mask is a new array", minimum=10)
+             "every path samples; the mask is a new array; per-axis scale",
+             minimum=11)
     ctx.rule("R16.6", "the event-limit block of Filter.update keeps no "
              "state on the instance that a later update reads; the draw does "
-             "not depend on instance state", minimum=2)
+             "not depend on instance state; the limit is the last narrowing "
+             "step", minimum=3)
     r161(ctx, repo)
     r162(ctx, repo)
     r163(ctx, repo)
@@ -1609,6 +1698,15 @@ MUTANTS = [
       ("                arr_all[arr_all] = sub\n",
        "                arr_all[arr_all] = sub\n"
        "                self._limited = True\n")], "R16.6"),
+    ("scatter: y scaled with the x scale", CORE,
+     ("        ys = RTDCBase._apply_scale(y, yscale, yax)\n",
+      "        ys = RTDCBase._apply_scale(y, xscale, yax)\n", 0), "R16.5"),
+    ("limit: manual exclusions applied after the draw", FILT,
+     [("arr_all[:] = arr_box & arr_invalid & arr_polygon & self.manual",
+       "arr_all[:] = arr_box & arr_invalid & arr_polygon"),
+      ("                arr_all[arr_all] = sub\n",
+       "                arr_all[arr_all] = sub\n"
+       "            arr_all &= self.manual\n")], "R16.6"),
     ("scatter: mask written at unfiltered positions", CORE,
      ("            mids = np.where(self.filter.all)[0]\n",
       "            mids = np.where(self.filter.manual)[0]\n"), "R16.5"),
@@ -1726,4 +1824,16 @@ TWINS = [
        '        mids = np.where(self.filter.all)[0]\n'
        '        mask[mids] = idx\n'
        '        return mask\n')]),
+    ("refactoring 2: filtered x/y fetched by a private helper", CORE,
+     [("    def get_downsampled_scatter(self, xax=\"area_um\", "
+       "yax=\"deform\",\n",
+       "    def _get_filtered_xy(self, xax, yax):\n"
+       "        x = self[xax][self.filter.all]\n"
+       "        y = self[yax][self.filter.all]\n"
+       "        return x, y\n\n"
+       "    def get_downsampled_scatter(self, xax=\"area_um\", "
+       "yax=\"deform\",\n"),
+      ("        x = self[xax][self.filter.all]\n"
+       "        y = self[yax][self.filter.all]\n",
+       "        x, y = self._get_filtered_xy(xax, yax)\n", 0)]),
 ]
